@@ -276,7 +276,9 @@ PROPERTIES = {
     },
     "C04": {
         "functions": ["opfython.models.knn_supervised.KNNSupervisedOPF.fit", "opfython.models.knn_supervised.KNNSupervisedOPF._clustering",
-                      "opfython.models.knn_supervised.KNNSupervisedOPF._learn"] + HEAP_FUNCS,
+                      "opfython.models.knn_supervised.KNNSupervisedOPF._learn",
+                      # the supervised half is reduced to C01 + C02 + C03 (+ a cited theorem): their contracts are premises
+                      SUP + "_find_prototypes", SUP + "fit", SUP + "predict"] + HEAP_FUNCS,
         "lemmas": HEAP_LEMMAS + ["inj_card_off", "inj_card_goff", "inj_card"],
         "files": ["opfython/models/knn_supervised.py", "opfython/models/supervised.py", "opfython/core/heap.py",
                   "opfython/subgraphs/knn.py", "opfython/math/distance.py", "opfython/utils/constants.py"],
